@@ -200,7 +200,9 @@ fn gen_delivery(rng: &mut Rng, prop: &str, mutable_only: bool, unpaid_bias: bool
             // 6 = the whole delivery is a register on ANOTHER owner-signed base for the same address (its permissions
             // list the stranger as writer) carrying ops of the stranger: valid on its own, foreign to the held register
             // 7 = an op the owner signed for ANOTHER register, its address field rewritten to this one
-            _ => if rng.chance(1, 5) { 2 + rng.below(6) as u8 } else { rng.below(2) as u8 },
+            // 8 = the whole delivery sits on a base the owner signed for ANOTHER label, its address rewritten to this
+            // register's (the owner never signed this label); the ops are the owner's genuine ops for this address
+            _ => if rng.chance(1, 5) { 2 + rng.below(7) as u8 } else { rng.below(2) as u8 },
         };
         items.push((id, flag));
     }
